@@ -710,13 +710,14 @@ package router
 //@ func (r *router) loadDomainSet(cfg *DomainSetConfig) (err error)
 //@   props C10
 //@   requires r != nil && cfg != nil && r.domainSets != nil && r.logger != nil
-//@   modifies obj(r.domainSets), field(domainmatcher.labelNode), field(domainmatcher.DomainMatcher), field(domainmatcher.RegexpMatcher), maps(domainmatcher.labelNode)
+//@   modifies obj(r.domainSets), field(domainmatcher.labelNode), field(domainmatcher.DomainMatcher), maps(regexp.Regexp), maps(domainmatcher.labelNode)
 //@   ensures [C10:missing-tag-rejected] len(cfg.Tag) == 0 ==> err != nil
 //@   ensures [C10:dup-tag-rejected] old(has(r.domainSets, cfg.Tag)) ==> err != nil
 //@   ensures [C10:registered-under-tag] err == nil ==> has(r.domainSets, cfg.Tag) && r.domainSets[cfg.Tag] != nil
 //@   ensures [C10:others-kept] forallkey(k, r.domainSets, (err != nil || k != keyOf(r.domainSets, cfg.Tag)) ==> has(r.domainSets, k) == old(has(r.domainSets, k)) && r.domainSets[k] == old(r.domainSets[k]))
 //@   loop 1:
-//@     modifies field(domainmatcher.labelNode), field(domainmatcher.DomainMatcher), field(domainmatcher.RegexpMatcher), maps(domainmatcher.labelNode)
+//@     modifies field(domainmatcher.labelNode), field(domainmatcher.DomainMatcher), maps(regexp.Regexp), maps(domainmatcher.labelNode)
+//@     invariant mixOK(m)
 
 //@ spec func closersOK(r *router) bool = forall(k, 0, len(r.serverClosers), r.serverClosers[k] != nil)
 
@@ -924,7 +925,7 @@ package router
 //@     modifies obj(r.upstreams)
 //@     invariant upstreamsOK(r)
 //@   loop 2:
-//@     modifies obj(r.domainSets), field(domainmatcher.labelNode), field(domainmatcher.DomainMatcher), field(domainmatcher.RegexpMatcher), maps(domainmatcher.labelNode)
+//@     modifies obj(r.domainSets), field(domainmatcher.labelNode), field(domainmatcher.DomainMatcher), maps(regexp.Regexp), maps(domainmatcher.labelNode)
 //@   loop 3:
 //@     invariant len(r.rules) == rangeindex_3 + 1
 //@     invariant forall(k, 0, rangeindex_3 + 1, r.rules[k] != nil && (r.rules[k].upstream == nil || uwOK(r.rules[k].upstream)))
